@@ -80,6 +80,9 @@ CATALOGUE = {
     "ladder2": [(0, 1), (1, 2), (2, 3), (3, 0), (0, 2), (1, 3)],
     "ladder3": [(0, 1), (1, 2), (2, 3), (3, 4), (4, 5), (5, 0), (1, 4), (2, 5)],
     "tadpole_pair": [(0, 0), (0, 0)],
+    "banana5": [(0, 1), (0, 1), (0, 1), (0, 1), (0, 1)],
+    "ladder3x": [(0, 1), (1, 2), (2, 3), (4, 5), (5, 6), (6, 7), (0, 4), (1, 5), (2, 6), (3, 7)],   # rails + 4 rungs, 3 loops
+    "bubble_chain3": [(0, 1), (0, 1), (1, 2), (1, 2), (2, 3), (2, 3)],
     "sunrise_tadpole": [(0, 1), (0, 1), (0, 1), (1, 1)],
 }
 
@@ -129,3 +132,29 @@ def graph_request(edges, weights, massive, ext, D):
     return {"op": "graph", "D": D,
             "edges": [[a, b, f2b(w), bool(m)] for (a, b), w, m in zip(edges, weights, massive)],
             "ext": list(ext)}
+
+
+def face_basis(name, edges):
+    """sparse (face) cycle bases for chain-like graphs: consecutive cycles share one edge, non-consecutive ones none"""
+    n = len(edges)
+    if name in ("sunrise", "banana4", "banana5"):
+        L = n - 1
+        S = [[0] * L for _ in range(n)]
+        for i in range(L):
+            S[i][i] = 1; S[i + 1][i] = -1
+        return S
+    if name == "ladder3x":
+        # faces: rung k (k->k+4 down), bottom rail k, rung k+1 up, top rail k backwards
+        S = [[0] * 3 for _ in range(n)]
+        for k in range(3):
+            S[6 + k][k] = 1          # rung (k, k+4) traversed k -> k+4
+            S[3 + k][k] = 1          # bottom rail (k+4, k+5)
+            S[6 + k + 1][k] = -1     # rung (k+1, k+5) traversed upwards
+            S[k][k] = -1             # top rail (k, k+1) traversed backwards
+        return S
+    if name == "bubble_chain3":
+        S = [[0] * 3 for _ in range(n)]
+        for k in range(3):
+            S[2 * k][k] = 1; S[2 * k + 1][k] = -1
+        return S
+    return None
